@@ -31,7 +31,7 @@ Definition run (c : case) : sx :=
   match c with
   | CLazy p o kw full dag =>
       if wf_pipelineb p then
-        let '(r, st) := lazy_run p o kw full dag in
+        let '(r, st) := lazy_run_checked p o kw full dag in
         match r with
         | Err e => SL [SErr e]
         | Ok x =>
@@ -44,7 +44,7 @@ Definition run (c : case) : sx :=
       else bad_case
   | CSeq p dag rs =>
       if wf_pipelineb p then
-        let '(ps1, outcomes) := run_requests body pick p dag (pinit) rs in
+        let '(ps1, outcomes) := run_requests_checked body pick p dag (pinit) rs in
         let '(ps2, values) := eval_all body pick ps1 outcomes in
         SL [ SL (map (fun r => match r with Ok _ => SS (s "ok") | Err e => SErr e end) outcomes);
              sx_elog (plog ps1);
